@@ -85,6 +85,55 @@ Qed.
 Theorem gen_clear_eq (p : str) : gen_PointerBuf_clear p = Ret (clear p, tt).
 Proof. reflexivity. Qed.
 
+(* ---- PointerBuf::replace ----------------------------------------------------------------------------- *)
+
+Lemma nth_N_nth_error' {A} (l : list A) : forall i, nth_N l i = nth_error l (N.to_nat i).
+Proof.
+  induction l as [|x r IH]; intros i; cbn [nth_N].
+  - destruct (N.to_nat i); reflexivity.
+  - destruct (N.eqb_spec i 0) as [->|H]; [reflexivity|].
+    rewrite IH. replace (N.to_nat i) with (S (N.to_nat (i - 1))) by lia. reflexivity.
+Qed.
+
+Lemma gen_replace_loop_eq : forall l self index token tokens old buf,
+  gen_PointerBuf_replace_loop1 l self index token tokens old buf = Ret (buf ++ from_tokens_enc l, Ok old).
+Proof.
+  induction l as [|t r IH]; intros self index token tokens old buf; cbn [gen_PointerBuf_replace_loop1 from_tokens_enc flat_map].
+  - rewrite app_nil_r. reflexivity.
+  - rewrite IH. change SLASH with 47. rewrite <- !app_assoc. reflexivity.
+Qed.
+
+Definition gen_repl (r : replace_result) : result (option Token) ReplaceError :=
+  match r with ReplOk old => Ok (option_map tokO old) | ReplErr i c => Err (mk_ReplaceError i c) end.
+
+Theorem gen_replace_eq (p : str) (index : N) (t : Token) :
+  gen_PointerBuf_replace p index t =
+  Ret (let '(p', r) := replace_tok p index (cow_text (Token_inner t)) in (p', gen_repl r)).
+Proof.
+  unfold gen_PointerBuf_replace, replace_tok. rewrite gen_is_root_eq.
+  destruct (is_root p).
+  - rewrite gen_count_eq. reflexivity.
+  - rewrite str_tokens_eq. destruct (len (ptokens p) <=? index) eqn:E; [reflexivity|].
+    apply N.leb_gt in E. unfold list_set.
+    destruct (N.ltb_spec index (len (ptokens p))) as [_|H]; [|lia].
+    rewrite gen_replace_loop_eq. cbn [app gen_repl]. rewrite nth_N_nth_error'. reflexivity.
+Qed.
+
+(* ---- PointerBuf::from_tokens ------------------------------------------------------------------------ *)
+
+Lemma gen_from_tokens_loop_eq : forall l tokens inner,
+  gen_PointerBuf_from_tokens_loop1 l tokens inner =
+  Ret (inner ++ from_tokens_enc (map (fun t => cow_text (Token_inner t)) l)).
+Proof.
+  induction l as [|t r IH]; intros tokens inner; cbn [gen_PointerBuf_from_tokens_loop1 map from_tokens_enc flat_map].
+  - rewrite app_nil_r. reflexivity.
+  - unfold gen_Token_encoded. rewrite IH. change SLASH with 47. rewrite <- !app_assoc. reflexivity.
+Qed.
+
+Theorem gen_from_tokens_eq (ts : list Token) :
+  gen_PointerBuf_from_tokens ts = Ret (from_tokens_enc (map (fun t => cow_text (Token_inner t)) ts)).
+Proof. unfold gen_PointerBuf_from_tokens. rewrite gen_from_tokens_loop_eq. reflexivity. Qed.
+
 (* no mutator ever panics, except pop_front exactly when the model says so -- which it never does (BufProofs) *)
 Theorem gen_buf_total : forall (p q : str) (t : Token),
   (exists r, gen_PointerBuf_push_front p t = Ret r) /\ (exists r, gen_PointerBuf_push_back p t = Ret r) /\
@@ -153,4 +202,26 @@ Theorem gen_append_refines_deque : forall p q : str,
 Proof.
   intros p q Hp Hq. rewrite gen_append_eq. destruct (append_refines p q Hp Hq) as (_ & Hv & Hd).
   eexists. repeat split; [exact Hv|exact Hd].
+Qed.
+
+(* the source's replace, fed with a token built by the source's Token::new: out-of-bounds error with the index and the
+   token count and the buffer untouched, or the previous token and the deque updated in place *)
+Theorem gen_replace_refines_deque : forall (p : str) (index : N) (c : Cow),
+  valid_ptr p = true ->
+  exists t p' r,
+    gen_Token_new c = Ret t /\ gen_PointerBuf_replace p index t = Ret (p', r) /\ valid_ptr p' = true /\
+    (len (tokens p) <= index -> r = Err (mk_ReplaceError index (len (tokens p))) /\ p' = p) /\
+    (index < len (tokens p) ->
+       exists old, r = Ok (Some (tokO old)) /\ valid_tok old = true /\
+         unescape old = nth (N.to_nat index) (dtokens p) [] /\
+         dtokens p' = set_nth (N.to_nat index) (cow_text c) (dtokens p)).
+Proof.
+  intros p index c Hp. destruct (gen_token_new_model c) as (t & Ht & Htext & _).
+  exists t. rewrite gen_replace_eq, Htext, token_new_text, <- (token_new_text false (cow_text c)).
+  pose proof (replace_refines p index (cow_text c) Hp) as R. cbv zeta in R.
+  destruct (replace_tok p index (ttext (token_new false (cow_text c)))) as [p' r] eqn:E. cbn [fst snd] in R.
+  destruct R as (Hv & Herr & Hok).
+  exists p', (gen_repl r). split; [exact Ht|]. split; [reflexivity|]. split; [exact Hv|]. split.
+  - intros H. destruct (Herr H) as [-> ->]. split; reflexivity.
+  - intros H. destruct (Hok H) as (old & -> & Ho & Hu & _ & Hd). exists old. repeat split; assumption.
 Qed.
